@@ -628,6 +628,8 @@ class VerilogGenerator:
         localWires = collectLocalWires(obj)
         wireNames = getWireNames(obj)
         
+        self.checkIdentifierCollisions(obj, localWires, wireNames)
+        
         for wire in localWires:
             if (isinstance(wire, FakeWire)):
                 continue
@@ -671,6 +673,30 @@ class VerilogGenerator:
         
         return str
         
+    def checkIdentifierCollisions(self, obj:Logic, localWires, wireNames):
+        # ports, the implicit clock, prefixed local wires (w_) and prefixed
+        # instance names (i_) share the module namespace, refuse to emit a 
+        # module in which two of them end up with the same identifier
+        names = []
+        
+        if (self.anyClockableDescendant(obj)):
+            names.append(getObjectClockDriver(obj).name)
+            
+        for p in obj.inPorts + obj.outPorts + obj.inOutPorts:
+            names.append(getPortName(p))
+            
+        for wire in localWires:
+            if not(isinstance(wire, FakeWire)):
+                names.append(wireNames[wire])
+            
+        for child in obj.children.values():
+            if not(self.isInlinable(child)):
+                names.append(getInstanceName(child))
+                
+        for name in names:
+            if (names.count(name) > 1):
+                raise Exception('Verilog identifier {} is used more than once in {}'.format(name, obj.getFullPath()))
+            
     def anyClockableDescendant(self, obj:Logic):
         """
         Checks it any of the descendants of obj is clockable
